@@ -231,9 +231,12 @@ func WriteSfm(sfmData *structs.SegFullMeta) {
 		return
 	}
 
-	sfmFd, err := os.OpenFile(sfmFname, os.O_WRONLY|os.O_CREATE|os.O_TRUNC, 0644)
+	// write a temporary file and rename it over the old one: truncating the live file first would leave an empty
+	// .sfm (and lose every earlier flush of an open segment) if the process died before the write
+	sfmTmpFname := sfmFname + ".tmp"
+	sfmFd, err := os.OpenFile(sfmTmpFname, os.O_WRONLY|os.O_CREATE|os.O_TRUNC, 0644)
 	if err != nil {
-		log.Errorf("WriteSfm: failed to open a sfm filename=%v: err=%v", sfmFname, err)
+		log.Errorf("WriteSfm: failed to open a sfm filename=%v: err=%v", sfmTmpFname, err)
 		return
 	}
 	defer sfmFd.Close()
@@ -246,6 +249,12 @@ func WriteSfm(sfmData *structs.SegFullMeta) {
 	err = sfmFd.Sync()
 	if err != nil {
 		log.Errorf("WriteSfm: failed to sync sfm: %v: err: %v", sfmFname, err)
+		return
+	}
+	sfmFd.Close()
+	err = os.Rename(sfmTmpFname, sfmFname)
+	if err != nil {
+		log.Errorf("WriteSfm: failed to rename %v to %v: err: %v", sfmTmpFname, sfmFname, err)
 		return
 	}
 }
